@@ -637,7 +637,7 @@ def stepTop (fuel : Nat) (st : TopSt) (tk : Token) : P TopSt :=
            | none => declined)
         else pure st.file.goPackage : P Str)
       pure (reset { st with file := { st.file with consts := st.file.consts ++ [c], goPackage := gp } })
-  | .closeCurly | .semicolon => pure (reset st)      -- the record readers may leave their closing token here
+  | .closeCurly | .semicolon => pure st      -- the record readers may leave their closing token here: `continue`, nothing pending is reset
   | _ => fail                                         -- any other stray token is an error (the fix)
 
 /-- ReadFile's top-level loop: `for tr.Next() { … }`, then the tokenizer's error if any (the fix). Go
